@@ -15,6 +15,9 @@ static int ref_piw(const unsigned char *d,size_t n,int base,unsigned __int128 *o
 void harness(void){
     unsigned char buf[N]; for(int i=0;i<N;i++) buf[i]=in_u8();
     size_t len=in_size_le(N);
+#ifdef DIGITS
+    for(int i=0;i<N;i++) __CPROVER_assume(buf[i]>='0'&&buf[i]<='9');      /* long digit strings: values around 2^31, 2^32, 2^63, 2^64 */
+#endif
     bstr *b=bstr_alloc(N); __CPROVER_assume(b); for(int i=0;i<N;i++) bstr_ptr(b)[i]=buf[i]; bstr_adjust_len(b,len);
     unsigned __int128 v=0;
 #if FUNC==1
